@@ -12,6 +12,8 @@ LISTS = [
     ("h/s/q1/>/*", "h/s/q1/v", "/", "c", "h/s/q1/v1/m"),
     ("h/a/x/>/y", "h/a/x/v", "/", "m", "h/a/x/v1/b"),
     ("h/*/**/>", "h/a/x/v1/", "", "", "h/s/q1/v1/o/c"),
+    ("h/*/>", "h/", "/", "x", "h/s/q1"),
+    ("h/a/x,y/>", "h/a/", "/v", "1", "h/a/y/v2"),
 ]
 
 
@@ -22,7 +24,7 @@ def x_obligations(tier):
     for i, (s, pre, mid, tail, fixed) in enumerate(LISTS):
         env = {"VF_SEARCH": s, "VF_PRE": pre, "VF_MID": mid, "VF_TAIL": tail, "VF_FIXED": fixed, "VF_N": str(n)}
         b = f"search {s!r}; entries {pre!r}+a+{mid!r}+{tail!r}, {pre!r}+c+{mid!r}+d{', ' + fixed if fixed else ''}; every a, c, d (no '/') with len<={n}"
-        if tier == "thorough" or i in (0, 2, 4):
+        if tier == "thorough" or i in (0, 2, 4, 8, 9):
             o.append(Obl(f"C09-list[{s},{pre!r}]", M, "list_last", env=env, timeout=T, path_timeout=200, family="C09-list", bound=b))
         if tier == "thorough" or i in (1,):
             o.append(Obl(f"C09-all[{s},{pre!r}]", M, "all_last", env=env, timeout=T, path_timeout=200, family="C09-all", bound=b + "; FindInAll over a type-aware stub source"))
